@@ -4,6 +4,7 @@
 -/
 import Rtp.Proofs.H265Fields
 import Rtp.Proofs.H265Parse
+import Rtp.Proofs.H265Rt
 namespace Rtp.Props.C14
 open Rtp Rtp.Model.H265 Rtp.Pred Rtp.Spec.Rfc7798
 
@@ -73,5 +74,82 @@ example : encode (.ap ⟨false, 48, 0, 1⟩ (some 7) [0x40, 1, 9] [(some 0, [0x4
 example : (Packet.paci ⟨false, 50, 0, 1⟩ false 19 3 true false false false [0xAA, 0xBB, 0x80] [1, 2]).WF false = true ∧
     (Packet.paci ⟨false, 50, 0, 1⟩ false 19 3 true false false false [0xAA, 0xBB, 0x80] [1, 2]).tsci =
       some ⟨0xAA, 0xBB, true, false, 0⟩ := by decide
+
+/-! ## c14_roundtrip / c14_shape — payloader → H265Packet → reassembly per RFC 7798 -/
+
+/-- the full statement: for every option setting, every MTU ≥ 4 (≥ 6 with AddDONL), every sequence
+    of `Payload` calls on one payloader, each on the Annex-B framing of HEVC NAL units (types 0–47,
+    F = 0, at least one payload octet, no inner start code, no trailing zero octet): every emitted
+    payload is ≤ MTU, decodes with `H265Packet`, decodes to exactly what is on the wire, has the
+    RFC 7798 shape (`shapeOk`: a single NAL unit packet is the unit; an aggregation packet has ≥ 2
+    complete units under a Type-48 header with the minimum LayerId and TID; FUs carry FuType = the
+    unit type and DONL only where §4.4.3 puts it), IsPartitionHead marks exactly the first packet of
+    each unit, and reassembly (`depack`: ≥ 2 FUs per train, S first, E last, F/LayerId/TID preserved)
+    yields the call's units in order. -/
+def c14_roundtrip_full : Prop :=
+  ∀ (cfg : Cfg) (mtu : UInt16) (frames : List (List (Nat × Bytes))),
+    rtWF cfg mtu frames = true → C14.rtOk cfg mtu frames (rtObs cfg mtu frames) = true
+
+/-- `c14_roundtrip_full` outside the region of the known finding `c14_donl_fu` (AddDONL and some
+    unit is fragmented): there the payloader writes a DONL into every FU (test-pinned), and the
+    statement is false (`c14_donl_fu_witness`).  No bound on unit sizes, unit counts or calls. -/
+theorem c14_roundtrip_partial (cfg : Cfg) (mtu : UInt16) (frames : List (List (Nat × Bytes)))
+    (hwf : rtWF cfg mtu frames = true) (hreg : rtKF cfg mtu frames = false) :
+    C14.rtOk cfg mtu frames (rtObs cfg mtu frames) = true := by
+  simp only [rtWF, Bool.and_eq_true, decide_eq_true_eq, List.all_eq_true] at hwf
+  obtain ⟨hmin, hf⟩ := hwf
+  refine rt_frames cfg mtu hmin frames hf 0 ?_
+  intro hd ps hps p hp
+  simp only [rtKF, hd, Bool.true_and, rtPayloads] at hreg
+  cases hfu : isFU p with
+  | false => rfl
+  | true =>
+    have : (payloadHist cfg 0 (frames.map fun f => (mtu, some (C14.frameBytes f)))).any (·.any isFU) = true := by
+      simp only [List.any_eq_true]
+      exact ⟨ps, hps, p, hp, hfu⟩
+    rw [this] at hreg; simp at hreg
+
+/-- c14_shape, spelled out without the predicate: the fragments of one `Payload` call (any value
+    of the DONL counter) on a well-formed frame are exactly `descs.map encode` for a list of packet
+    descriptions that are well-formed for the stream's DONL mode, have the RFC 7798 shape, and
+    reassemble to the frame's units.  Hypothesis: no unit is fragmented while AddDONL is on. -/
+theorem c14_shape (cfg : Cfg) (mtu d : UInt16) (f : List (Nat × Bytes)) (hf : C14.frameWF f = true)
+    (hmin : (if cfg.addDONL then 6 else 4) ≤ mtu.toNat)
+    (hnofu : cfg.addDONL = true → ∀ p ∈ (payload cfg mtu d (some (C14.frameBytes f))).1, isFU p = false) :
+    ∃ descs : List Packet,
+      (payload cfg mtu d (some (C14.frameBytes f))).1 = descs.map encode ∧
+      (∀ p ∈ descs, p.WF cfg.addDONL = true ∧ shapeOk cfg.addDONL p = true) ∧
+      depack none descs = some (f.map (·.2)) :=
+  payload_emits cfg mtu d f hf hmin hnofu
+
+/-- without AddDONL the statement holds everywhere -/
+theorem c14_roundtrip_nodonl (skip : Bool) (mtu : UInt16) (frames : List (List (Nat × Bytes)))
+    (hwf : rtWF ⟨false, skip⟩ mtu frames = true) :
+    C14.rtOk ⟨false, skip⟩ mtu frames (rtObs ⟨false, skip⟩ mtu frames) = true :=
+  c14_roundtrip_partial _ mtu frames hwf (by simp [rtKF])
+
+/-- the known finding, on the smallest input: AddDONL, MTU 6, one 4-byte unit `4E 06 02 03`.  The
+    payloader emits two FUs, both carrying a DONL; RFC 7798 and `H265FragmentationUnitPacket`
+    expect it only in the first, so the second FU's payload is `00 01 03` and the reassembled unit
+    is `4E 06 02 00 01 03`. -/
+theorem c14_donl_fu_witness :
+    rtWF ⟨true, false⟩ 6 [[(0, [0x4E, 0x06, 0x02, 0x03])]] = true ∧
+    rtKF ⟨true, false⟩ 6 [[(0, [0x4E, 0x06, 0x02, 0x03])]] = true ∧
+    C14.rtOk ⟨true, false⟩ 6 [[(0, [0x4E, 0x06, 0x02, 0x03])]]
+      (rtObs ⟨true, false⟩ 6 [[(0, [0x4E, 0x06, 0x02, 0x03])]]) = false := by
+  decide
+
+theorem c14_roundtrip_full_false : ¬ c14_roundtrip_full := by
+  intro h
+  have := h ⟨true, false⟩ 6 [[(0, [0x4E, 0x06, 0x02, 0x03])]] c14_donl_fu_witness.1
+  rw [c14_donl_fu_witness.2.2] at this
+  exact absurd this (by decide)
+
+/-- non-vacuity: a frame of three units (two aggregated, one fragmented) at MTU 12 meets the
+    hypotheses, and so does a DONL stream whose units all fit -/
+example : rtWF ⟨false, false⟩ 12 [[(4, [0x40, 1, 0x0c]), (3, [0x42, 1, 1, 2]),
+    (3, [0x26, 1, 1, 2, 3, 4, 5, 6, 7, 8, 9, 10, 11, 12, 13])]] = true := by decide
+example : rtWF ⟨true, false⟩ 20 [[(4, [0x40, 1, 0x0c]), (3, [0x42, 1, 1, 2])]] = true ∧
+    rtKF ⟨true, false⟩ 20 [[(0, [0x40, 1, 0x0c])]] = false := by decide
 
 end Rtp.Props.C14
